@@ -960,11 +960,13 @@ func convertRule(l *slog.Logger, p any, table string, i int) (rule, error) {
 
 	toString := func(k string, m map[string]any) string {
 		v, ok := m[k]
-		if !ok {
+		if !ok || v == nil {
+			// A key with no value is the same as a key that is not there, not the literal string "<nil>"
 			return ""
 		}
 		return fmt.Sprintf("%v", v)
 	}
+
 
 	r.Port = toString("port", m)
 	r.Code = toString("code", m)
@@ -975,10 +977,16 @@ func convertRule(l *slog.Logger, p any, table string, i int) (rule, error) {
 	r.CAName = toString("ca_name", m)
 	r.CASha = toString("ca_sha", m)
 
+	// YAML hands a float to us for things like 80.0 or 8e1, formatting it would silently turn it into a valid port.
+	// The port of an icmp rule is ignored altogether.
+	if _, isFloat := m["port"].(float64); isFloat && r.Proto != "icmp" {
+		return r, fmt.Errorf("port was not a string or an integer: %v", m["port"])
+	}
+
 	// Make sure group isn't an array
 	if v, ok := m["group"].([]any); ok {
-		if len(v) > 1 {
-			return r, errors.New("group should contain a single value, an array with more than one entry was provided")
+		if len(v) != 1 {
+			return r, errors.New("group should contain a single value, an array with more than one entry or no entry was provided")
 		}
 
 		l.Warn("group was an array with a single value, converting to simple value",
@@ -990,13 +998,18 @@ func convertRule(l *slog.Logger, p any, table string, i int) (rule, error) {
 
 	singleGroup := toString("group", m)
 
-	if rg, ok := m["groups"]; ok {
+	if rg, ok := m["groups"]; ok && rg != nil {
 		switch reflect.TypeOf(rg).Kind() {
 		case reflect.Slice:
 			v := reflect.ValueOf(rg)
 			r.Groups = make([]string, v.Len())
 			for i := 0; i < v.Len(); i++ {
-				r.Groups[i] = v.Index(i).Interface().(string)
+				e := v.Index(i).Interface()
+				if e == nil {
+					return r, fmt.Errorf("groups entry %v has no value", i+1)
+				}
+				// Same as the single value fields: a non string scalar is used by its printed form
+				r.Groups[i] = fmt.Sprintf("%v", e)
 			}
 		case reflect.String:
 			r.Groups = []string{rg.(string)}
